@@ -60,7 +60,7 @@ pub fn all() -> Vec<Prop> {
             id: "C02",
             run: props::sel::run_c02,
             replayers: props::sel::replayers,
-            rule: "Enumeration: every weak-order pattern (surjection onto 0..k) of the stated lengths x every in-range index (single) / every non-empty index subset in scrambled order with repeats (bulk) x EVERY pivot sequence, enumerated by DFS through the pivot hook; each (pattern, request, pivot sequence) triple is emitted exactly once, so enumerated cases are distinct by construction. Random: proptest cases (length <= 80/300, arrays dominated by one repeated value up to twice that, i64 with ties/extremes/sorted/reversed, strides +-1..3 inside a sentinel buffer, scripted pivots First/Last/Middle/Hash/real), distinct by 64-bit hash of the whole case. Non-trivial: array length >= 2 (so at least one pivot is drawn) and, for bulk, a non-empty request.",
+            rule: "Enumeration: every weak-order pattern (surjection onto 0..k) of the stated lengths x every in-range index (single) / every non-empty index subset in scrambled order with repeats (bulk) x EVERY pivot sequence, enumerated by DFS through the pivot hook; each (pattern, request, pivot sequence) triple is emitted exactly once, so enumerated cases are distinct by construction. Random: proptest cases (length <= 80/300, arrays dominated by one repeated value up to twice that, i64 with ties/extremes/sorted/reversed, strides +-1..3 inside a sentinel buffer, scripted pivots First/Last/Middle/Hash/real; the same oracles also on i128, BigInt and i16 elements), distinct by 64-bit hash of the whole case. Non-trivial: array length >= 2 (so at least one pivot is drawn) and, for bulk, a non-empty request.",
             assumptions: COMMON_ASSUMPTIONS,
             profiles_quick: BOTH,
             profiles_thorough: BOTH,
